@@ -207,6 +207,29 @@ def snapshots_from(snaps):
     return Snapshots(nsnapshots=len(snaps), snapshots=list(snaps))
 
 
+UNWRAP_COUNTS = {}
+
+
+def unwrap_in_place(rng, snapshots, Hs, ppp, prob=0.25, maxshift=3):
+    """Unwrapped coordinates: with probability `prob`, every particle of every frame is moved by up to +-maxshift whole cell vectors along the
+    periodic axes (what an `xu` dump holds after a long run; the reader keeps such coordinates as they are).  The periodic configuration --
+    and so every minimum-image observable -- is the same.  Done in place on writeable position arrays (read-only representations are left
+    alone); the shifts are the same in every frame so that displacements between frames are unchanged.  Returns True when applied."""
+    ppp = np.asarray(ppp)
+    if not ppp.any() or rng.random() >= prob:
+        return False
+    snaps = list(snapshots)
+    if not all(s.positions.flags.writeable for s in snaps):
+        return False
+    n = rng.integers(-maxshift, maxshift + 1, size=snaps[0].positions.shape) * ppp[None, :]
+    if not n.any():
+        return False
+    for s, H in zip(snaps, Hs if isinstance(Hs, (list, tuple)) else [Hs] * len(snaps)):
+        s.positions[...] = np.asarray(s.positions) + n @ np.asarray(H, float)
+    UNWRAP_COUNTS["snapshots_with_unwrapped_coordinates"] = UNWRAP_COUNTS.get("snapshots_with_unwrapped_coordinates", 0) + len(snaps)
+    return True
+
+
 def random_mask(rng, d, allow_open=True):
     r = rng.random()
     if r < 0.55:
